@@ -31,33 +31,67 @@ def word (words : List Bytes) (k : Nat) : R Bytes :=
   | some w => .ok w
   | none => .error (.panic "ParseServer: words index out of range")
 
+/-- the `case "P"` arm of `ParseServer` -/
+def parsePlace (words : List Bytes) : R Move :=
+  if words.length ≠ 2 ∧ words.length ≠ 3 then .error (.illegal "command too short") else
+  match word words 1 with
+  | .error e => .error e
+  | .ok w1 =>
+  match parseSquare w1 with
+  | .error e => .error e
+  | .ok (x, y) =>
+  let m : Move := { x := x, y := y, type := Facts.mtPlaceFlat, slides := 0#32 }
+  if words.length == 3 then
+    match word words 2 with
+    | .error e => .error e
+    | .ok w2 =>
+      if w2 == [67] then .ok { m with type := Facts.mtPlaceCapstone }        -- "C"
+      else if w2 == [87] then .ok { m with type := Facts.mtPlaceStanding }   -- "W"
+      else .error (.illegal "bad place")
+  else .ok m
+
+/-- the direction `switch` of the `case "M"` arm -/
+def slideDir (sx sy ex ey : Int) : R Nat :=
+  if ex > sx ∧ ey = sy then .ok Facts.mtSlideRight
+  else if ex < sx ∧ ey = sy then .ok Facts.mtSlideLeft
+  else if ey > sy ∧ ex = sx then .ok Facts.mtSlideUp
+  else if ey < sy ∧ ex = sx then .ok Facts.mtSlideDown
+  else .error (.illegal "bad slide")
+
+/-- the `case "M"` arm of `ParseServer` -/
+def parseSlide (words : List Bytes) : R Move :=
+  if words.length < 4 then .error (.illegal "command too short") else
+  match word words 1 with
+  | .error e => .error e
+  | .ok w1 =>
+  match parseSquare w1 with
+  | .error e => .error e
+  | .ok (sx, sy) =>
+  match word words 2 with
+  | .error e => .error e
+  | .ok w2 =>
+  match parseSquare w2 with
+  | .error e => .error e
+  | .ok (ex, ey) =>
+  match slideDir sx sy ex ey with
+  | .error e => .error e
+  | .ok ty =>
+  match parseDrops (words.drop 3) [] with
+  | .error e => .error e
+  | .ok slides =>
+  match mkSlides slides with
+  | .error e => .error e
+  | .ok s => .ok { x := sx, y := sy, type := ty, slides := s }
+
 /-- `ParseServer` -/
-def parseServer (server : Bytes) : R Move := do
+def parseServer (server : Bytes) : R Move :=
   let words := split 32 server
-  let w0 ← word words 0
-  if w0 == [80] then            -- "P"
-    if words.length ≠ 2 ∧ words.length ≠ 3 then throw (.illegal "command too short")
-    let (x, y) ← parseSquare (← word words 1)
-    let m : Move := { x := x, y := y, type := Facts.mtPlaceFlat, slides := 0#32 }
-    if words.length == 3 then
-      let w2 ← word words 2
-      if w2 == [67] then pure { m with type := Facts.mtPlaceCapstone }
-      else if w2 == [87] then pure { m with type := Facts.mtPlaceStanding }
-      else throw (.illegal "bad place")
-    else pure m
-  else if w0 == [77] then       -- "M"
-    if words.length < 4 then throw (.illegal "command too short")
-    let (sx, sy) ← parseSquare (← word words 1)
-    let (ex, ey) ← parseSquare (← word words 2)
-    let ty ← (if ex > sx ∧ ey = sy then .ok Facts.mtSlideRight
-              else if ex < sx ∧ ey = sy then .ok Facts.mtSlideLeft
-              else if ey > sy ∧ ex = sx then .ok Facts.mtSlideUp
-              else if ey < sy ∧ ex = sx then .ok Facts.mtSlideDown
-              else .error (.illegal "bad slide") : R Nat)
-    let slides ← parseDrops (words.drop 3) []
-    let s ← mkSlides slides
-    pure { x := sx, y := sy, type := ty, slides := s }
-  else throw (.illegal "bad command")
+  match word words 0 with
+  | .error e => .error e
+  | .ok w0 =>
+    if w0 == [80] then parsePlace words          -- "P"
+    else if w0 == [77] then parseSlide words     -- "M"
+    else .error (.illegal "bad command")
 
 /-- `FormatServer`; every type code outside the seven known ones takes the `M` branch with `ex, ey = X, Y` -/
 def formatServer (m : Move) : Bytes :=
